@@ -148,3 +148,40 @@ Theorem C17_bbsname_big5_follows_name :
   (forall h cfgs st, exists sts, bbs_steps (after h) cfgs st = Ok sts /\ length sts = length cfgs).
 Proof. exact (conj bbs_init_config_spec (conj bbs_steps_loaded bbs_steps_total)). Qed.
 Print Assumptions C17_bbsname_big5_follows_name.
+
+(* ------------------------------------------------------------------ the whole start-up: types.InitConfig()
+   An attempt (Model/C17.v: attempt, post_config) says whether the configured TIME_LOCATION loads and what the two
+   configured table paths are in the file system: the table file, nothing, a directory, the empty name, or a
+   symbolic link (NLink) to any of these, to any depth. after_starts h: the tables after the history h. *)
+
+(* a start-up whose time zone does not load returns an error and leaves the tables as they were; a start-up that
+   returns nil had its time zone AND has both tables loaded, whatever the attempts before it were (refused for the
+   time zone, failed on a missing file or a dangling link, ...): types.InitConfig() never reports success on empty
+   or partial tables *)
+Theorem C17_start_success_loads_both :
+  (forall a t, at_tz a = false -> post_config a t = (false, t)) /\
+  (forall h a, fst (post_config a (after_starts h)) = true ->
+     at_tz a = true /\ snd (post_config a (after_starts h)) = all_tabs).
+Proof. exact (conj start_refused_without_time_zone start_success_loads_both). Qed.
+Print Assumptions C17_start_success_loads_both.
+
+(* a table path that is a symbolic link (to a link, ...) behaves exactly as what it finally points to; with a
+   loadable time zone and both paths leading to the table files the start-up returns nil in every reachable state *)
+Theorem C17_start_links_transparent :
+  (forall tz k1 k2 n1 n2 t,
+     post_config (mk_attempt tz (links k1 n1) (links k2 n2)) t = post_config (mk_attempt tz n1 n2) t) /\
+  (forall h k1 k2, fst (post_config (mk_attempt true (links k1 NFile) (links k2 NFile)) (after_starts h)) = true).
+Proof. exact (conj start_links_transparent start_with_links_succeeds). Qed.
+Print Assumptions C17_start_links_transparent.
+
+(* after any start-up that returned nil the server's converters are big5_to_utf8 / utf8_to_big5 (table-exact,
+   round trip: the theorems above); in every state such histories reach, both conversions return *)
+Theorem C17_post_start_converters :
+  (forall h a, fst (post_config a (after_starts h)) = true ->
+     forall s, big5_to_utf8_of (tb (snd (post_config a (after_starts h)))) s = big5_to_utf8 s /\
+               utf8_to_big5_of (tu (snd (post_config a (after_starts h)))) s = utf8_to_big5 s) /\
+  (forall h s,
+     (exists o, big5_to_utf8_of (tb (after_starts h)) s = Ok o /\ (2 * length o <= 3 * length s)%nat) /\
+     (exists o, utf8_to_big5_of (tu (after_starts h)) s = Ok o /\ (length o <= 2 * length s)%nat)).
+Proof. exact (conj post_start_converters any_start_state_total). Qed.
+Print Assumptions C17_post_start_converters.
